@@ -5,6 +5,7 @@ import os, random, multiprocessing, traceback
 import prudp_session as ps
 import c01_slowlink
 import c01_acktimer
+import c01_sizes
 
 LEVEL = "proof"
 
@@ -299,9 +300,10 @@ def to_lines(sess, name, late_acks=False):
     for side, sub, m in sess.accepted:
         if not isinstance(m, tuple):
             sent_lists.setdefault((side, sub), []).append(m)
-    fs = cfg.fragment_size
     for (d, sub), events in sorted(ev.items()):
         if sub >= sess.nsub: continue
+        # the fragment size is the SENDER's (the two endpoints need not share it: c01_sizes.py)
+        fs = (getattr(sess, "cfg_s", cfg) if d == "s" else cfg).fragment_size
         ch = "%s.%s%d" % (name, d, sub)
         if sub == 0:
             start = (cfg.start[0] if d == "c" else cfg.start[1]) if cfg.start else (2 if d == "c" else 1)
@@ -475,6 +477,10 @@ def work(args):
         # an acknowledgement arriving while the retransmission timer of its packet fires (slow socket, round trip just below the
         # resend timeout), see c01_acktimer.py
         return c01_acktimer.work(idx, seed, quick, judge)
+    if isinstance(seed, str) and seed.startswith("sizes:"):
+        # payload sizes over the whole legal range (fragment sizes above the default, zlib frames longer than a fragment, endpoints
+        # with different fragment sizes), see c01_sizes.py
+        return c01_sizes.work(idx, seed, quick, judge, to_lines)
     if isinstance(seed, str) and seed.startswith("concurrent-senders"):
         try:
             bad = concurrent_senders(int(seed.split(":")[1]))
@@ -536,7 +542,12 @@ def run(ctx):
                 "budget / hostile, so that keep-alive PINGs are numbered and sent between the fragments of one message; non-trivial there = "
                 "≥1 PING inside a message; ack-timer family (real code only): a socket whose send takes tau and a round trip just below "
                 "resend_timeout, so that the acknowledgement of the SYN (and of data) arrives while the packet's retransmission timer "
-                "fires: tau x delay over the window and controls on either side x v0/v1 x credentials x slow side, judged in the budget regime")
+                "fires: tau x delay over the window and controls on either side x v0/v1 x credentials x slow side, judged in the budget regime; "
+                "payload-size family (c01_sizes.py, replayed through the model): fragment sizes 1301..1400 (and 1472..60000), the two endpoints "
+                "with different fragment sizes (1400/1300, 1300/962, ..), zlib on (compressible and incompressible fragments: wire payload "
+                "longer than the fragment) / off, messages of fs, fs+1, 1301, 2fs+17, 3fs bytes, unreliable DATA of fs and 1400 bytes x v0/v1/lite "
+                "(lite also over a stream cut into 536/1448-byte segments) x perfect / within budget / hostile network; non-trivial there = a "
+                "DATA payload longer than 1300 bytes or than the receiver's own fragment size was delivered")
     directed = [(100000 + i, c[0], quick) for i, c in enumerate(directed_cases())]
     directed += [(100100 + i, "concurrent-senders:%d" % i, quick) for i in range(16 if quick else 200)]
     seeds = directed[::-1] + [(i, ctx.rng.getrandbits(48), quick) for i in range(n)]
@@ -546,6 +557,7 @@ def run(ctx):
     off = ctx.rng.randrange(320)
     seeds += [(200000 + k, "slowlink:%d:%d" % (off + k, ctx.rng.getrandbits(48)), quick) for k in range(nslow)]
     seeds += [(300000 + k, "acktimer:%d" % k, quick) for k in range(len(c01_acktimer.cases(quick)))]
+    seeds += [(400000 + k, "sizes:%d:%d" % (k, ctx.rng.getrandbits(48)), quick) for k in range(len(c01_sizes.cases(quick)))]
     with multiprocessing.Pool(min(16, os.cpu_count() or 4)) as pool:
         results = pool.map(work, seeds, chunksize=1 if quick else 4)
     drv = ctx.driver()
@@ -593,6 +605,25 @@ def run(ctx):
             agg["not_replayed_second_connect"] += 1 if sl["connect_ids"] > 1 else 0
             k3 = "%s/%s/%s" % (sl["profile"], sl["direction"], sl["faults"])
             agg["by_profile_direction_faults"][k3] = agg["by_profile_direction_faults"].get(k3, 0) + 1
+        sz = stats.get("sizes")
+        if sz:
+            nontriv = sz["delivered"] > 0 and (sz["data_payloads_longer_than_1300"] > 0 or sz["data_payloads_longer_than_receivers_fragment_size"] > 0)
+            agg = ctx.extra.setdefault("sizes", {"sessions": 0, "asymmetric_sessions": 0, "zlib_sessions": 0, "replayed_through_model": 0,
+                                                 "largest_data_payload_on_wire": 0, "data_payloads_longer_than_1300": 0,
+                                                 "data_payloads_longer_than_receivers_fragment_size": 0, "unreliable_payloads_longer_than_1300": 0,
+                                                 "messages_longer_than_1300_delivered": 0, "unreliable_delivered": 0, "segmented_stream_sessions": 0,
+                                                 "by_fragment_sizes_client/server": {}})
+            agg["sessions"] += 1
+            agg["asymmetric_sessions"] += 1 if sz["asymmetric"] else 0
+            agg["zlib_sessions"] += 1 if sz["compression"] else 0
+            agg["replayed_through_model"] += 1 if lines else 0
+            agg["largest_data_payload_on_wire"] = max(agg["largest_data_payload_on_wire"], sz["largest_data_payload_on_wire"])
+            for f in ("data_payloads_longer_than_1300", "data_payloads_longer_than_receivers_fragment_size", "unreliable_payloads_longer_than_1300",
+                      "messages_longer_than_1300_delivered"):
+                agg[f] += sz[f]
+            agg["unreliable_delivered"] += sz["delivered_unreliable"]
+            agg["segmented_stream_sessions"] += 1 if sz["segmented_stream"] else 0
+            agg["by_fragment_sizes_client/server"][sz["pair"]] = agg["by_fragment_sizes_client/server"].get(sz["pair"], 0) + 1
         ctx.case(key=seed, nontrivial=nontriv, tag="%s:%s%s" % (stats.get("enc"), regime, ":connect-failed" if stats.get("connect_error") else ""),
                  sample={"cfg": cfgd, "regime": regime, "datagrams": stats.get("tx"), "model_lines": len(lines), "first_lines": lines[:6]} if idx % 97 == 0 else None)
     ctx.extra["model_line_diffs"] = ndiff
